@@ -77,8 +77,8 @@ def main(tier, seed):
         "of lengths (checked only to lie within 1/200 of the tree-matrix value), check_taxon_names, non-square input"]
     run.assumptions += ["float comparisons on the grid coincide with exact rational comparisons (UPGMA) / on the "
                         "margin-certified stream (NJ)",
-                        "C09_nj_recovers_partial has the cherry-picking lemma of Saitou-Nei/Studier-Keppler as an "
-                        "explicit hypothesis"]
+                        "none of the C09 theorems has an unproved premise: the cherry-picking lemma "
+                        "(C09_nj_cherry_picking) and the topology clause (C09_nj_recovers) are proved"]
     return run.finish()
 
 
